@@ -16,6 +16,7 @@ CONSTANTS
   DlEnds = {0, 1}
   PreEst = TRUE
   BlockOnRoom = FALSE
+  IdTop = FALSE
   TrackKinds = {}
 SPECIFICATION Spec
 VIEW view
